@@ -160,6 +160,27 @@ def run_shard(shard, tier) -> Stats:
             prob = judge(st, case, *res, table if not variant else {})
             st.ev((tuple(sorted(s.items())), variant), "match" if not prob else "differ", True,
                   sample=None if len(st.samples) >= 2 else {"requested": s, "body": res[2].hex() if res[2] else None})
+    # the same client object applies vector after vector (and a second client interleaves): every body must still
+    # encode exactly the vector requested at that moment
+    for lo in range(0, len(cases), 25):
+        seq = cases[lo:lo + 25]
+        rig = Rig(2)
+        a, b = rig.client(), rig.client()
+        try:
+            for i, s_ in enumerate(seq):
+                ac = a if i % 3 else b
+                dz.apply_to_client(ac, s_)
+                n0 = len(rig.dev.ac.controls)
+                out = rig.run(ac.apply())
+                ctl = rig.dev.ac.controls[-1] if len(rig.dev.ac.controls) > n0 else None
+                body = next((f.body[:-1] for f in reversed(rig.dev.ac.frames) if f.body[0] == 0x40), None) if ctl else None
+                prob = judge(st, {**s_, "variant": "same client, vector %d of a sequence" % i}, out, ctl, body,
+                             rig.dev.ac.rejected[-1][1] if rig.dev.ac.rejected else None, {})
+                st.ev((tuple(sorted(s_.items())), "seq", lo), "match" if not prob else "differ", True)
+                if prob:
+                    break
+        finally:
+            rig.close()
     st.extra["distinct_bodies"] = len(table)
     st.reruns += det.reruns
     return st
@@ -167,6 +188,9 @@ def run_shard(shard, tier) -> Stats:
 
 def replay(case):
     st = Stats()
+    if str(case.get("variant", "")).startswith("same client"):
+        return {"note": "sequence case: re-run ./check C10 to reproduce; the vector alone on a fresh client:",
+                "fresh": replay({k: x for k, x in case.items() if k != "variant"})}
     v = ["", "pending property + state report with every answer", "enums as plain ints"].index(case.get("variant", ""))
     res = execute({k: x for k, x in case.items() if k != "variant"}, v)
     prob = judge(st, case, *res, {})
